@@ -22,7 +22,8 @@ Outcomes == {"ok", "caught", "sub", "other", "uncaught", "cancelled", "cancexc",
    "cancexc"  : a cancellation that is ALSO an instance of the caught class (class OperationCancelled(CancelledError,
                 AppError)): a cancellation all the same - no form catches it *)
 
-Forms == {"class", "tuple", "set", "tuple_with_cancelled", "related", "all", "bare"}
+Forms == {"class", "tuple", "set", "tuple_with_cancelled", "related", "all", "bare", "empty_tuple", "empty_set"}
+(* "empty_tuple" / "empty_set": catching=() / set() - nothing is caught, so nothing is retried *)
 (* "related": a tuple naming a class AND one of its subclasses (E1, E1Sub) - the wider one decides *)
 Delays == {"none", "int", "float", "fn"}
 Modes == {"sync", "async"}
@@ -42,7 +43,8 @@ Configs == { c \in [limit : 1..MaxLimit, form : Forms, delay : Delays, mode : Mo
                c.form = "bare" => (c.limit = 1 /\ c.delay = "none") }
 
 Caught(c, o) ==
-  CASE c.form \in {"class", "related"} -> o \in {"caught", "sub"}
+  CASE c.form \in {"empty_tuple", "empty_set"} -> FALSE
+    [] c.form \in {"class", "related"} -> o \in {"caught", "sub"}
     [] c.form \in {"tuple", "set", "tuple_with_cancelled"} -> o \in {"caught", "sub", "other"}
     [] OTHER -> o \in {"caught", "sub", "other", "uncaught"}   \* all / bare: every Exception
 
